@@ -18,6 +18,7 @@ from __future__ import annotations
 
 import ast
 import builtins
+import collections as _collections
 import importlib
 import operator as _operator
 import string as _string
@@ -176,6 +177,25 @@ class CodeVal:
         self.tree = tree
 
 
+class PartialVal:
+    """functools.partial(f, *args, **kwargs) over a real or an interpreted callable: applied by World.call."""
+
+    def __init__(self, func: t.Any, args: tuple, kwargs: dict):
+        self.func = func
+        self.args = tuple(args)
+        self.kwargs = dict(kwargs)
+
+    def __repr__(self) -> str:
+        return f"<partial of {self.func!r}>"
+
+
+class SuppressVal:
+    """contextlib.suppress(*exceptions): a with-block that swallows the listed (real or interpreted) exception classes."""
+
+    def __init__(self, excs: tuple):
+        self.excs = tuple(excs)
+
+
 class GenVal:
     """a running generator of interpreted code (lazy, like the real thing)."""
 
@@ -214,7 +234,7 @@ class _Continue(Exception):
 
 
 # callables the interpreter itself has to apply to interpreted values (sort keys ...)
-_INTERPRETED_KEYS = (FuncVal, ClsVal, _operator.attrgetter, _operator.methodcaller, _operator.itemgetter)
+_INTERPRETED_KEYS = (FuncVal, ClsVal, PartialVal, _operator.attrgetter, _operator.methodcaller, _operator.itemgetter)
 
 
 class Env:
@@ -239,20 +259,21 @@ _STRUCT_SAFE_METHODS = {
     list: {"append", "extend", "insert", "pop", "copy", "reverse", "clear", "__len__", "__iter__"},
     tuple: {"__len__", "__iter__"},
     dict: {"items", "keys", "values", "copy", "clear", "get", "pop", "setdefault", "update", "__len__", "__iter__"},
+    _collections.deque: {"append", "appendleft", "pop", "popleft", "extend", "extendleft", "clear", "copy", "rotate", "reverse", "__len__", "__iter__"},
 }
 
-_STR_RETURNING = {"builtins.str", "urllib.parse.quote", "urllib.parse.quote_plus", "urllib.parse.urlencode", "builtins.repr", "builtins.format", "builtins.chr"}
+_STR_RETURNING = {"builtins.str", "urllib.parse.quote", "urllib.parse.quote_plus", "urllib.parse.quote_from_bytes", "urllib.parse.urlencode", "builtins.repr", "builtins.format", "builtins.chr"}
 _RET_TYPES: dict[str, t.Any] = {"builtins.int": int, "builtins.float": float, "builtins.len": int, "builtins.bool": bool}
 
 
 def deep_concrete(v: t.Any, _d: int = 0) -> bool:
-    if isinstance(v, (Sym, Obj, FuncVal, ClsVal, GenVal, SuperVal, ExcObj, CodeVal)):
+    if isinstance(v, (Sym, Obj, FuncVal, ClsVal, GenVal, SuperVal, ExcObj, CodeVal, PartialVal, SuppressVal)):
         return False
     if _d > 6:
         return True
-    if isinstance(v, (list, tuple, set, frozenset)):
+    if isinstance(v, (list, tuple, set, frozenset, _collections.deque)):
         return all(deep_concrete(x, _d + 1) for x in v)
-    if isinstance(v, dict):
+    if isinstance(v, (dict, _collections.ChainMap)):
         return all(deep_concrete(k, _d + 1) and deep_concrete(x, _d + 1) for k, x in v.items())
     return True
 
@@ -771,6 +792,8 @@ class World:
             return self.call_func(fn, args, kwargs, node)
         if isinstance(fn, ClsVal):
             return self.instantiate(fn, args, kwargs, node)
+        if isinstance(fn, PartialVal):
+            return self.call(fn.func, [*fn.args, *args], {**fn.kwargs, **kwargs}, node)
         if isinstance(fn, tuple) and fn and fn[0] == "fn_get":
             if not args:
                 raise self.nu("__get__ without instance", node)
@@ -809,6 +832,18 @@ class World:
             return ExcObj(fn, tuple(args))
         if fq == "typing.cast" and len(args) == 2:
             return args[1]
+        if fq == "contextlib.suppress" and not kwargs and all(isinstance(a, ClsVal) or (isinstance(a, type) and issubclass(a, BaseException)) for a in args):
+            return SuppressVal(tuple(args))
+        if fq == "builtins.method" and len(args) == 2 and not kwargs and isinstance(args[0], (FuncVal, PartialVal, ClsVal, Obj)):
+            # types.MethodType(function, instance) is function.__get__(instance): the bound method
+            if isinstance(args[0], FuncVal) and not args[0].has_bound:
+                return args[0].bind(args[1])
+            return PartialVal(args[0], (args[1],), {})
+        if fq == "functools.partial" and args and not isinstance(args[0], (Sym, GenVal, ExcObj, CodeVal, SuperVal)) and (isinstance(args[0], (FuncVal, ClsVal, Obj, PartialVal)) or callable(args[0])):
+            return PartialVal(args[0], tuple(args[1:]), kwargs)
+        if fn in (builtins.set, builtins.frozenset, builtins.sorted, builtins.min, builtins.max, builtins.any, builtins.all) and args and isinstance(args[0], dict) and deep_concrete(list(args[0].keys())):
+            # a mapping handed to a consumer of iterables: only its (concrete) keys are looked at, whatever the values are
+            args = [list(args[0].keys()), *args[1:]]
         if getattr(fn, "__name__", "") == "get" and isinstance(getattr(fn, "__self__", None), dict) and args and isinstance(args[0], Sym) and not kwargs:
             # <dict>.get(<symbolic key>): decided like `key in dict`; only the miss is modelled
             cond = Sym("in", args[0], tuple(fn.__self__.keys()), styp=bool)
@@ -859,7 +894,7 @@ class World:
             except Raised:
                 return False
         if fn is builtins.callable and len(args) == 1:
-            return isinstance(args[0], (FuncVal, ClsVal)) or (not isinstance(args[0], (Sym, Obj)) and callable(args[0]))
+            return isinstance(args[0], (FuncVal, ClsVal, PartialVal)) or (not isinstance(args[0], (Sym, Obj)) and callable(args[0]))
         if fn is builtins.str and len(args) == 1 and not kwargs:
             a = args[0]
             if isinstance(a, Sym):
@@ -872,6 +907,11 @@ class World:
                     if found and isinstance(raw, FuncVal):
                         return self.call_func(raw.bind(a), [], {}, node)
                 raise self.nu(f"str() of {a!r}", node)
+        if fn is builtins.format and args and not kwargs and (len(args) == 1 or (len(args) == 2 and isinstance(args[1], str))):
+            return self.format_value(args[0], None, args[1] if len(args) == 2 else "", node)
+        if type(fn).__name__ == "method_descriptor" and getattr(fn, "__objclass__", None) is str and args and isinstance(args[0], Sym) and args[0].styp is str:
+            # str.zfill(text, n): the unbound spelling of text.zfill(n)
+            return self.sym_method(args[0], fn.__name__, list(args[1:]), kwargs, node)
         if fn is builtins.len and len(args) == 1 and isinstance(args[0], Sym):
             if args[0].length is not None:
                 return args[0].length
@@ -924,6 +964,8 @@ class World:
             order = sorted(range(len(lst)), key=lambda i: keys[i], reverse=bool(kwargs.get("reverse", False)))
             lst[:] = [lst[i] for i in order]
             return None
+        if fn is builtins.filter and len(args) == 2 and args[0] is None and not kwargs:
+            return [x for x in self.iterate(args[1], node) if self.truth(x, node)]
         if fn in (builtins.map, builtins.filter) and len(args) >= 2 and args[0] is not None:
             f0 = args[0]
             seqs = [list(self.iterate(a, node)) for a in args[1:]]
@@ -939,7 +981,7 @@ class World:
                 raise Raised(ExcObj(StopIteration, ()))
         if fn is builtins.iter and len(args) == 1 and isinstance(args[0], GenVal):
             return args[0]
-        if fn is builtins.iter and len(args) == 2 and not kwargs and isinstance(args[0], (FuncVal, ClsVal, Obj)):
+        if fn is builtins.iter and len(args) == 2 and not kwargs and isinstance(args[0], (FuncVal, ClsVal, Obj, PartialVal)):
             # iter(callable, sentinel): call until the result equals the sentinel, one call per element pulled
             f0, sentinel = args
 
@@ -957,7 +999,7 @@ class World:
             lazy = self.lazy_itertools(fn, fq, args, kwargs, node)
             if lazy is not None:
                 return lazy
-        if fn in (builtins.list, builtins.tuple, builtins.set, builtins.frozenset, builtins.dict, builtins.enumerate, builtins.zip, builtins.iter, builtins.reversed, builtins.sorted, builtins.any, builtins.all, builtins.sum, builtins.min, builtins.max) or fq in ("builtins.str.join", "builtins.list.extend", "builtins.set.update", "builtins.dict.update", "builtins.dict.fromkeys"):
+        if fn in (builtins.list, builtins.tuple, builtins.set, builtins.frozenset, builtins.dict, builtins.enumerate, builtins.zip, builtins.iter, builtins.reversed, builtins.sorted, builtins.any, builtins.all, builtins.sum, builtins.min, builtins.max, _collections.deque) or fq in ("builtins.str.join", "builtins.list.extend", "builtins.set.update", "builtins.dict.update", "builtins.dict.fromkeys", "collections.deque.extend", "collections.deque.extendleft", "itertools.chain", "itertools.chain.from_iterable"):
             # materialise interpreted generators handed to real consumers
             args = [list(a.it) if isinstance(a, GenVal) else a for a in args]
         if fq == "re.sub" and len(args) == 3 and not kwargs and isinstance(args[0], str) and isinstance(args[1], str) and isinstance(args[2], Sym) and args[2].op == "concat":
@@ -987,8 +1029,10 @@ class World:
             top_c = not any(isinstance(a, (Sym,)) for a in args) and not any(isinstance(a, Sym) for a in kwargs.values())
             slf = getattr(fn, "__self__", None)
             nm = getattr(fn, "__name__", "")
-            if top_c and (fn in (builtins.list, builtins.tuple, builtins.dict, builtins.iter, builtins.len, builtins.enumerate, builtins.zip, builtins.reversed, builtins.id, builtins.next) or fq in ("itertools.chain", "itertools.chain.from_iterable", "itertools.islice", "itertools.zip_longest", "builtins.type.from_iterable")):
+            if top_c and (fn in (builtins.list, builtins.tuple, builtins.dict, builtins.iter, builtins.len, builtins.enumerate, builtins.zip, builtins.reversed, builtins.id, builtins.next) or fq in ("collections.deque", "itertools.chain", "itertools.chain.from_iterable", "itertools.islice", "itertools.zip_longest", "builtins.type.from_iterable")):
                 struct_ok = True
+            elif fq == "collections.ChainMap" and not kwargs and all(isinstance(a, dict) for a in args):
+                struct_ok = True  # a view over the given mappings: only their (concrete) keys are hashed
             elif slf is not None and not isinstance(slf, type(sys)):
                 for ty, names in _STRUCT_SAFE_METHODS.items():
                     if type(slf) is ty and nm in names:
@@ -1011,8 +1055,19 @@ class World:
                 pass
             return res
         # symbolic application of a library function
-        if any(isinstance(a, (Obj, FuncVal, GenVal, ClsVal, ExcObj)) for a in list(args) + list(kwargs.values())):
+        if any(isinstance(a, (Obj, FuncVal, GenVal, ClsVal, ExcObj, PartialVal)) for a in list(args) + list(kwargs.values())):
             raise self.nu(f"library call {fq} with an interpreted object argument", node)
+        if not args and kwargs:
+            # f(first=x) is f(x): one spelling for the terms (uuid.UUID(hex=text), quote(string=text, safe=...))
+            try:
+                import inspect as _inspect
+
+                first = next(iter(_inspect.signature(fn).parameters.values()), None)
+            except (TypeError, ValueError):
+                first = None
+            if first is not None and first.kind is first.POSITIONAL_OR_KEYWORD and first.name in kwargs:
+                kwargs = dict(kwargs)
+                args = [kwargs.pop(first.name)]
         styp = str if fq in _STR_RETURNING else _RET_TYPES.get(fq)
         if isinstance(fn, type) and styp is None:
             styp = fn
@@ -1034,7 +1089,7 @@ class World:
         truth = lambda v: self.truth(v, node)  # noqa: E731
 
         def callable_ok(f: t.Any) -> bool:
-            return isinstance(f, (FuncVal, ClsVal, Obj)) or (not isinstance(f, (Sym, GenVal, ExcObj, CodeVal, SuperVal)) and callable(f))
+            return isinstance(f, (FuncVal, ClsVal, Obj, PartialVal)) or (not isinstance(f, (Sym, GenVal, ExcObj, CodeVal, SuperVal)) and callable(f))
 
         def nxt(src: t.Iterator[t.Any]) -> tuple[bool, t.Any]:
             try:
@@ -1368,6 +1423,10 @@ class World:
 
     def _call_func(self, fv: FuncVal, args: list, kwargs: dict, node: ast.AST | None) -> t.Any:
         fnode = fv.node
+        if not fv.has_bound and fv.defcls is not None and args and isinstance(args[0], Obj) and not isinstance(fnode, ast.Lambda):
+            # `Base.method(self, ...)`: the plain function called with the instance first - zero-argument super() inside
+            # it refers to that first argument, exactly as in a bound call
+            fv, args = fv.bind(args[0]), list(args[1:])
         if fv.has_bound:
             args = [fv.bound] + list(args)
         module = fv.module
@@ -1879,7 +1938,16 @@ class Frame:
         item = st.items[i]
         cm = self.ev(item.context_expr)
         w = self.w
-        if isinstance(cm, (Sym, FuncVal, ClsVal, GenVal)):
+        if isinstance(cm, SuppressVal):
+            if item.optional_vars is not None:
+                self.assign(item.optional_vars, None)
+            try:
+                yield from self.exec_with(st, i + 1)
+            except Raised as r:
+                if not any(self.exc_matches(r.exc, k, st) for k in cm.excs):
+                    raise
+            return
+        if isinstance(cm, (Sym, FuncVal, ClsVal, GenVal, PartialVal)):
             raise self.nu("with over an unmodelled context manager", st)
         if isinstance(cm, Obj):
             val = w.call(w.getattr(cm, "__enter__", st), [], {}, st)
@@ -2216,6 +2284,9 @@ class Frame:
             elif isinstance(a, Sym) or isinstance(b, Sym):
                 if a is b:
                     r = True
+                elif type(a) is object or type(b) is object:
+                    # a bare object() made by the analysed code is a private marker: no value of any domain is it
+                    r = False
                 else:
                     raise self.nu("identity test on a symbolic value", n)
             else:
